@@ -10,8 +10,13 @@ or through a view (`v <view> <op>`):
   d all | all   d len   d enum <which>
   v union        all | qm <sm> <pm> <om> | has <triple> | enum <which>            (datasets)
   v punion <gm>  all | qm <sm> <pm> <om> | has <triple> | enum <which>
+  v iunion       (the same reads: `into_union_graph()`)
   v graph <g>    all | qm … | has <triple> | enum <which> | ins <triple> | rem <triple>
+                 | insall|remall <triple> - | …  | remm|retm <sm> <pm> <om>     (default bulk methods on graph_mut(g))
+  v graphm <g>   all | qm … | has … | enum …                                    (reads through graph_mut(g))
   v asds         all | qm <sm> <pm> <om> <gm> | has <quad> | enum <which> | ins <quad> | rem <quad>   (graphs)
+                 | insall|remall <quad> | …                                     (default bulk methods on as_dataset_mut())
+  v asdsm | v ids   all | qm … | has … | enum …           (reads through as_dataset_mut() / into_dataset())
   hist <line> ; <line> ; …        a whole history from a fresh state; the reply is the last line's
   flags                           the generated `Gen.AdapterFlags`
   search                          model search: histories of length ≤ 3 whose model answer ≠ oracle
@@ -27,8 +32,16 @@ open SophiaModel.Gen.AdapterFlags
 
 def rq (n : Nat) (qs : List Quad) : String := renderQuads n (qs.map canonQuad)
 
+/-- the set of rendered quads (sorted, each once) -/
+def rqSet (n : Nat) (qs : List Quad) : String :=
+  match dedupStrings (sortStrings ((qs.map canonQuad).map (renderQuad n))) with
+  | [] => "_"
+  | l => ";".intercalate l
+
+/-- `quads` (a multiset) is compared with the implementation as a model/implementation tie; what the
+property demands (`o.set`) is that the view shows exactly the TRIPLES of the corresponding quads: the set -/
 def qreply (n : Nat) (model oracle : List Quad) : String :=
-  reply [kvN "n" model.length, kv "quads" (rq n model), kvN "o.n" oracle.length, kv "o.quads" (rq n oracle)]
+  reply [kvN "n" model.length, kv "quads" (rq n model), kv "set" (rqSet n model), kv "o.set" (rqSet n oracle)]
 
 def renderRes : MutRes → String
   | .ok true => "1" | .ok false => "0" | .errInner => "full" | .errOnlyDefaultGraph => "only-default"
@@ -80,13 +93,44 @@ def mutReply (n : Nat) (vec : Bool) (res : MutRes) (after : List Quad) (oflag : 
      | some f => if vec && (f == "0" || f == "1") then [] else [kv "o.r" f]
      | none => []) ++ [kv "o.st" (rq n oafter)])
 
-/-- set semantics (`vec`: multiset semantics of `Vec`) of inserting / removing one quad in a plain list -/
+/-- set semantics (`vec`: multiset semantics of `Vec`) of inserting / removing one quad in a plain list: the
+plain-list specification `Store.Spec.insert` / `Store.Spec.remove` the theorems are stated against -/
 def oInsert (vec : Bool) (pre : List Quad) (q : Quad) : List Quad × Bool :=
-  if vec then (pre ++ [q], true) else if qmem q pre then (pre, false) else (pre ++ [q], true)
-def oRemove (pre : List Quad) (q : Quad) : List Quad × Bool :=
-  (pre.filter (fun x => !quadEq x q), qmem q pre)
+  if vec then (pre ++ [q], true) else Store.Spec.insert pre q
+def oRemove (pre : List Quad) (q : Quad) : List Quad × Bool := Store.Spec.remove pre q
 
 def bS (b : Bool) : String := if b then "1" else "0"
+
+def renderBulk (unit : Bool) : BulkRes → String
+  | .ok n => if unit then "ok" else toString n
+  | .errInner => "full"
+  | .errOnlyDefaultGraph => "only-default"
+
+/-- the members of `l` that are none of the `touched` quads -/
+def others (touched l : List Quad) : List Quad := l.filter (fun x => !touched.any (quadEq x ·))
+
+/-- Reply of a (bulk or single) mutation through a view.  What the property demands is computed from `pre`
+alone: for set stores the exact content afterwards (`o.st`) and the flag / count (`o.r`); for vectors
+(multiplicities and flags "not significant") that every quad other than the `touched` ones keeps its copies
+(`oth` / `o.oth`). -/
+def mutReplyG (n : Nat) (res : String) (after : List Quad) (oflag : Option String) (ost : Option (List Quad))
+    (touched : Option (List Quad)) (pre : List Quad) : String :=
+  reply ([kv "r" res, kv "st" (rq n after)] ++
+    (match touched with | some t => [kv "oth" (rq n (others t after))] | none => []) ++
+    (match oflag with | some f => [kv "o.r" f] | none => []) ++
+    (match ost with | some l => [kv "o.st" (rq n l)] | none => []) ++
+    (match touched with | some t => [kv "o.oth" (rq n (others t pre))] | none => []))
+
+/-- set semantics of a bulk insertion / removal in a plain list: content and number of effective changes -/
+def oInsertAll (pre : List Quad) (qs : List Quad) : List Quad × Nat :=
+  qs.foldl (fun (acc : List Quad × Nat) q => let (d, b) := oInsert false acc.1 q; (d, if b then acc.2 + 1 else acc.2)) (pre, 0)
+def oRemoveAll (pre : List Quad) (qs : List Quad) : List Quad × Nat :=
+  qs.foldl (fun (acc : List Quad × Nat) q => let (d, b) := oRemove acc.1 q; (d, if b then acc.2 + 1 else acc.2)) (pre, 0)
+
+/-- the single-quad mutations: sets get the exact demand, vectors the "others untouched" one -/
+def mutReply1 (n : Nat) (vec : Bool) (res : MutRes) (after : List Quad) (q : Quad) (oflag : Bool) (oafter pre : List Quad) : String :=
+  if vec then mutReplyG n (renderRes res) after none none (some [q]) pre
+  else mutReplyG n (renderRes res) after (some (bS oflag)) (some oafter) none pre
 
 /-- one request on an implementation `I` in state `s` -/
 def stepI {σ : Type} (I : Impl σ) (vec : Bool) (s : σ) (toks : List String) : σ × String :=
@@ -139,7 +183,7 @@ def stepI {σ : Type} (I : Impl σ) (vec : Bool) (s : σ) (toks : List String) :
     | some a => (s, kv "terms" (renderTerms (a.map canonTerm)))
     | none => (s, "bad-op")
   -- ------------------------------------------------------------ dataset viewed as a graph
-  | "v" :: "union" :: rest =>
+  | "v" :: "union" :: rest | "v" :: "iunion" :: rest =>
     if n != 4 then (s, "bad-op") else
     match viewRead (UnionGraph.triples I s) (UnionGraph.triplesMatching I s) (UnionGraph.contains I s)
         (UnionGraph.enumerate I s) (Spec.union pre) rest with
@@ -168,9 +212,9 @@ def stepI {σ : Type} (I : Impl σ) (vec : Bool) (s : σ) (toks : List String) :
           | some t =>
             let q : Quad := ⟨t.s, t.p, t.o, g⟩
             let (s', res) := DatasetGraph.insert I s g t
-            let (oafter, of) := oInsert vec pre q
+            let (oafter, of) := oInsert false pre q
             if res == .errInner then (s', mutReply 4 vec res (I.quads s') none pre)
-            else (s', mutReply 4 vec res (I.quads s') (some (bS of)) oafter)
+            else (s', mutReply1 4 vec res (I.quads s') q of oafter pre)
           | none => (s, "bad-op")
         | "rem" :: tt =>
           match parseTriple tt with
@@ -178,11 +222,75 @@ def stepI {σ : Type} (I : Impl σ) (vec : Bool) (s : σ) (toks : List String) :
             let q : Quad := ⟨t.s, t.p, t.o, g⟩
             let (s', res) := DatasetGraph.remove I s g t
             let (oafter, of) := oRemove pre q
-            (s', mutReply 4 vec res (I.quads s') (some (bS of)) oafter)
+            (s', mutReply1 4 vec res (I.quads s') q of oafter pre)
           | none => (s, "bad-op")
+        | "insall" :: tt =>
+          match parseQuads tt with
+          | some ts =>
+            let qs : List Quad := ts.map (fun t => ⟨t.s, t.p, t.o, g⟩)
+            let (s', res) := DatasetGraph.insertAll I s g ts
+            let (oafter, oc) := oInsertAll pre qs
+            if res == .errInner then (s', mutReplyG 4 (renderBulk false res) (I.quads s') none none none pre)
+            else if vec then (s', mutReplyG 4 (renderBulk false res) (I.quads s') none none (some qs) pre)
+            else (s', mutReplyG 4 (renderBulk false res) (I.quads s') (some (toString oc)) (some oafter) none pre)
+          | none => (s, "bad-op")
+        | "remall" :: tt =>
+          match parseQuads tt with
+          | some ts =>
+            let qs : List Quad := ts.map (fun t => ⟨t.s, t.p, t.o, g⟩)
+            let (s', res) := DatasetGraph.removeAll I s g ts
+            let (oafter, oc) := oRemoveAll pre qs
+            if vec then (s', mutReplyG 4 (renderBulk false res) (I.quads s') none none (some qs) pre)
+            else (s', mutReplyG 4 (renderBulk false res) (I.quads s') (some (toString oc)) (some oafter) none pre)
+          | none => (s, "bad-op")
+        | "remm" :: tt =>
+          match parse3 tt with
+          | some (sm, pm, om, []) =>
+            let (s', res) := DatasetGraph.removeMatching I s g sm pm om
+            let gone : Quad → Bool := fun q => gnameEq g q.g && Spec.tripleMatched sm pm om q
+            (s', mutReplyG 4 (renderBulk false res) (I.quads s')
+              (if vec then none else some (toString (pre.filter gone).length)) (some (pre.filter (fun q => !gone q))) none pre)
+          | _ => (s, "bad-op")
+        | "retm" :: tt =>
+          match parse3 tt with
+          | some (sm, pm, om, []) =>
+            let (s', res) := DatasetGraph.retainMatching I s g sm pm om
+            let gone : Quad → Bool := fun q => gnameEq g q.g && !Spec.tripleMatched sm pm om q
+            (s', mutReplyG 4 (renderBulk true res) (I.quads s') (some "ok") (some (pre.filter (fun q => !gone q))) none pre)
+          | _ => (s, "bad-op")
         | _ => (s, "bad-op")
     | none => (s, "bad-op")
+  | "v" :: "graphm" :: rest =>
+    -- reads through `graph_mut(g)`: `impl Dataset for &mut T` forwards every method to `T`
+    if n != 4 then (s, "bad-op") else
+    match parseGName (rest.length + 2) rest with
+    | some (g, sub) =>
+      match viewRead (DatasetGraph.triples I s g) (DatasetGraph.triplesMatching I s g)
+          (DatasetGraph.contains I s g) (DatasetGraph.enumerate I s g) (Spec.graph g pre) sub with
+      | some r => (s, r)
+      | none => (s, "bad-op")
+    | none => (s, "bad-op")
   -- ------------------------------------------------------------ graph viewed as a dataset
+  | "v" :: "asdsm" :: sub | "v" :: "ids" :: sub =>
+    -- reads through `as_dataset_mut()` (`impl Graph for &mut T` forwards to `T`) / `into_dataset()`
+    if n != 3 then (s, "bad-op") else
+    let spec := Spec.asDataset pre
+    match sub with
+    | ["all"] => (s, qreply 4 (GraphAsDataset.quads I s) spec)
+    | "qm" :: rest =>
+      match parse3 rest with
+      | some (sm, pm, om, r3) =>
+        match parseGM (r3.length + 2) r3 with
+        | some (gm, []) =>
+          (s, qreply 4 (GraphAsDataset.quadsMatching I s sm pm om gm) (spec.filter (quadMatched 4 (dpat gm sm pm om))))
+        | _ => (s, "bad-op")
+      | none => (s, "bad-op")
+    | "has" :: rest =>
+      match parseQuad rest with
+      | some q => (s, reply [kvB "r" (GraphAsDataset.contains I s q), kvB "o.r" (qmem q spec)])
+      | none => (s, "bad-op")
+    | ["enum", which] => (s, enumReply (GraphAsDataset.enumerate I s which) (enumOf 4 which spec))
+    | _ => (s, "bad-op")
   | "v" :: "asds" :: sub =>
     if n != 3 then (s, "bad-op") else
     let spec := Spec.asDataset pre
@@ -207,9 +315,9 @@ def stepI {σ : Type} (I : Impl σ) (vec : Bool) (s : σ) (toks : List String) :
         let (s', res) := GraphAsDataset.insert I s q
         if q.g.isSome then (s', mutReply 3 vec res (I.quads s') (some "only-default") pre)
         else
-          let (oafter, of) := oInsert vec pre ⟨q.s, q.p, q.o, none⟩
+          let (oafter, of) := oInsert false pre ⟨q.s, q.p, q.o, none⟩
           if res == .errInner then (s', mutReply 3 vec res (I.quads s') none pre)
-          else (s', mutReply 3 vec res (I.quads s') (some (bS of)) oafter)
+          else (s', mutReply1 3 vec res (I.quads s') ⟨q.s, q.p, q.o, none⟩ of oafter pre)
       | none => (s, "bad-op")
     | "rem" :: rest =>
       match parseQuad rest with
@@ -218,14 +326,36 @@ def stepI {σ : Type} (I : Impl σ) (vec : Bool) (s : σ) (toks : List String) :
         if q.g.isSome then (s', mutReply 3 false res (I.quads s') (some "0") pre)
         else
           let (oafter, of) := oRemove pre ⟨q.s, q.p, q.o, none⟩
-          (s', mutReply 3 vec res (I.quads s') (some (bS of)) oafter)
+          (s', mutReply1 3 vec res (I.quads s') ⟨q.s, q.p, q.o, none⟩ of oafter pre)
+      | none => (s, "bad-op")
+    | "insall" :: rest =>
+      match parseQuads rest with
+      | some qs =>
+        let (s', res) := GraphAsDataset.insertAll I s qs
+        -- only the listed triples of the default graph may be touched, whatever happens
+        let touched : List Quad := (qs.filter (·.g.isNone)).map (fun q => ⟨q.s, q.p, q.o, none⟩)
+        let (oafter, oc) := oInsertAll pre touched
+        if res == .errInner then (s', mutReplyG 3 (renderBulk false res) (I.quads s') none none none pre)
+        else if qs.any (·.g.isSome) then
+          (s', mutReplyG 3 (renderBulk false res) (I.quads s') (some "only-default") none (some touched) pre)
+        else if vec then (s', mutReplyG 3 (renderBulk false res) (I.quads s') none none (some touched) pre)
+        else (s', mutReplyG 3 (renderBulk false res) (I.quads s') (some (toString oc)) (some oafter) none pre)
+      | none => (s, "bad-op")
+    | "remall" :: rest =>
+      match parseQuads rest with
+      | some qs =>
+        let (s', res) := GraphAsDataset.removeAll I s qs
+        let touched : List Quad := (qs.filter (·.g.isNone)).map (fun q => ⟨q.s, q.p, q.o, none⟩)
+        let (oafter, oc) := oRemoveAll pre touched
+        if vec then (s', mutReplyG 3 (renderBulk false res) (I.quads s') none none (some touched) pre)
+        else (s', mutReplyG 3 (renderBulk false res) (I.quads s') (some (toString oc)) (some oafter) none pre)
       | none => (s, "bad-op")
     | _ => (s, "bad-op")
   | _ => (s, "bad-op")
 
 /-! ### state -/
 
-inductive Mode | model | set | vec
+inductive Mode | model | set | vec | vecFirst
   deriving Inhabited, DecidableEq
 
 structure State where
@@ -252,7 +382,8 @@ def stepOne (s : State) (toks : List String) : State × String :=
     | some d, some mx => ({ s with mode := .model, desc := d, st := St.new d.shape mx, n := d.n, bag := [] }, "ok=1")
     | _, _ =>
       match kind with
-      | "HD" | "BD" => ({ s with mode := .set, n := 4, bag := [] }, "ok=1")
+      | "HD" | "BD" | "HP" | "BP" => ({ s with mode := .set, n := 4, bag := [] }, "ok=1")
+      | "VP" => ({ s with mode := .vecFirst, n := 4, bag := [] }, "ok=1")
       | "HG" | "BG" => ({ s with mode := .set, n := 3, bag := [] }, "ok=1")
       | "VD" => ({ s with mode := .vec, n := 4, bag := [] }, "ok=1")
       | "VG" => ({ s with mode := .vec, n := 3, bag := [] }, "ok=1")
@@ -266,6 +397,7 @@ def stepOne (s : State) (toks : List String) : State × String :=
     | .model => let (st', r) := stepI (storeImpl s.desc) false s.st toks; ({ s with st := st' }, r)
     | .set => let (b', r) := stepI (setImpl s.n) false s.bag toks; ({ s with bag := b' }, r)
     | .vec => let (b', r) := stepI (vecImpl s.n) true s.bag toks; ({ s with bag := b' }, r)
+    | .vecFirst => let (b', r) := stepI (vecFirstImpl s.n) true s.bag toks; ({ s with bag := b' }, r)
 
 def splitOn (sep : String) (toks : List String) : List (List String) :=
   toks.foldr (fun t acc => if t == sep then [] :: acc else
@@ -298,12 +430,15 @@ def searchAlphabet (graph : Bool) : List String :=
   if graph then
     ["d ins " ++ t ++ " -", "d rem " ++ t ++ " -", "v asds ins " ++ t ++ " -", "v asds rem " ++ t ++ " -",
      "v asds ins " ++ t ++ " " ++ g1, "v asds rem " ++ t ++ " " ++ g1, "v asds has " ++ t ++ " -",
-     "v asds has " ++ t ++ " " ++ g1, "v asds all", "v asds qm A A A GA", "v asds qm A A A GO " ++ g1, "v asds enum graphs"]
+     "v asds has " ++ t ++ " " ++ g1, "v asds all", "v asds qm A A A GA", "v asds qm A A A GO " ++ g1, "v asds enum graphs",
+     "v asds qm A A A GS 2 " ++ g1 ++ " b 62", "v asds remall " ++ t ++ " " ++ g1 ++ " | " ++ t ++ " -", "v asdsm all"]
   else
     ["d ins " ++ t ++ " " ++ g1, "d ins " ++ t ++ " " ++ g2, "d ins " ++ t ++ " -", "d rem " ++ t ++ " " ++ g1,
      "v graph " ++ g1 ++ " ins " ++ t, "v graph " ++ g1 ++ " rem " ++ t, "v graph " ++ g2 ++ " ins " ++ t,
      "v graph - rem " ++ t, "v graph " ++ g1 ++ " all", "v graph " ++ g2 ++ " has " ++ t, "v union all",
-     "v punion GK iri all", "v punion GA qm A A A", "v union enum iris"]
+     "v punion GK iri all", "v punion GA qm A A A", "v union enum iris",
+     "v graph " ++ g1 ++ " retm N A A", "v graph " ++ g1 ++ " remm A A A", "v graph " ++ g2 ++ " remall " ++ t ++ " -",
+     "v graphm " ++ g1 ++ " all"]
 
 /-- histories of exactly `k` operations -/
 def histories (alpha : List String) : Nat → List (List String)
